@@ -278,6 +278,11 @@ def run (R : Regs α) : List (Op α) → List (Out α)
   | [] => []
   | op :: ops => let (R', o) := step R op; o :: run R' ops
 
+/-- the registers after a history -/
+def exec (R : Regs α) : List (Op α) → Regs α
+  | [] => R
+  | op :: ops => exec (step R op).1 ops
+
 /-- all set variables start as nil maps (`var s mapset.Set[T]`) -/
 def Regs.init : Regs α := fun _ => none
 
